@@ -5,7 +5,6 @@ import (
 	"strings"
 
 	"verif/harness/hx"
-	"verif/harness/rt"
 )
 
 // c05.text — configuration text (route commands with white-space variation, comments, blank lines, \r\n, a
@@ -60,7 +59,7 @@ func genText(r *hx.Rand, i int) interface{} {
 	if r.Chance(1, 10) {
 		n = 1 + r.Intn(40)
 	}
-	ds := genScript(r, &rt.Small, n)
+	ds := genScript(r, &c05Small, n)
 	v := &varier{r: r, level: r.Intn(3)}
 	mal := -1
 	switch {
